@@ -136,6 +136,8 @@ def check_iter(ds, m, tag, passes=2, cycle=True):
 
 
 INT_TYPES = (int, np.int64, np.int32)
+UINT_TYPES = (np.uint8, np.uint64)  # unsigned numpy integers are integers too (non-negative indices only)
+SMALL_TYPES = (np.int8,)  # fixed-width arithmetic on the index must not overflow silently
 
 
 def is_unique_keys_refusal(e):
@@ -180,7 +182,9 @@ def check_len_index(ds, m, tag, require_indexable=None):
     accept_taint = m.int_taint
     for i in range(-n - 2, n + 2):
         inside = -n <= i < n
-        for T in INT_TYPES:
+        for T in (INT_TYPES + SMALL_TYPES + UINT_TYPES if i >= 0 else INT_TYPES + SMALL_TYPES):
+            if T not in (int,) and not (np.iinfo(T).min <= i <= np.iinfo(T).max):
+                continue  # not representable in this type
             try:
                 v = ds[T(i)]
             except PASS_THROUGH:
